@@ -49,6 +49,23 @@ func (w *World) computeGlobalFacts() {
 							w.GlobalFacts[g] = &GlobalFact{Kind: "const", Val: tv.Value}
 							continue
 						}
+						// append(<constant []byte global>, []byte("lit")...)
+						if call, ok := e.(*ast.CallExpr); ok && len(call.Args) == 2 && call.Ellipsis.IsValid() {
+							if fid, ok := call.Fun.(*ast.Ident); ok && fid.Name == "append" {
+								if base, ok := call.Args[0].(*ast.Ident); ok {
+									if bg := sp.Var(base.Name); bg != nil {
+										if bf := w.GlobalFacts[bg]; bf != nil && bf.Kind == "bytes" {
+											if conv, ok := call.Args[1].(*ast.CallExpr); ok && len(conv.Args) == 1 {
+												if av, ok := p.TypesInfo.Types[conv.Args[0]]; ok && av.Value != nil && av.Value.Kind() == constant.String {
+													w.GlobalFacts[g] = &GlobalFact{Kind: "bytes", Str: bf.Str + constant.StringVal(av.Value)}
+													continue
+												}
+											}
+										}
+									}
+								}
+							}
+						}
 						if call, ok := e.(*ast.CallExpr); ok && len(call.Args) == 1 {
 							if tv, ok := p.TypesInfo.Types[call.Fun]; ok && tv.IsType() {
 								if sl, ok := tv.Type.Underlying().(*types.Slice); ok {
